@@ -15,6 +15,8 @@
 package dmap
 
 import (
+	"encoding/binary"
+	"fmt"
 	"time"
 
 	"github.com/olric-data/olric/internal/cluster/partitions"
@@ -71,9 +73,35 @@ func (s *Service) putCommandHandler(conn redcon.Conn, cmd redcon.Command) {
 	conn.WriteString(protocol.StatusOK)
 }
 
+// validateEncodedEntry checks that buf has the layout produced by storage.Entry.Encode:
+//
+//	KEY-LENGTH(uint8) | KEY | TTL(uint64) | TIMESTAMP(uint64) | LASTACCESS(uint64) | VALUE-LENGTH(uint32) | VALUE
+//
+// The storage engine stores the buffer verbatim and decodes it on every read.
+func validateEncodedEntry(buf []byte) error {
+	const fixed = 1 + 8 + 8 + 8 + 4
+	if len(buf) < fixed {
+		return fmt.Errorf("%w: malformed entry", protocol.ErrInvalidArgument)
+	}
+	klen := int(buf[0])
+	if len(buf) < fixed+klen {
+		return fmt.Errorf("%w: malformed entry", protocol.ErrInvalidArgument)
+	}
+	vlen := binary.BigEndian.Uint32(buf[1+klen+24 : 1+klen+28])
+	if uint64(len(buf)) != uint64(fixed+klen)+uint64(vlen) {
+		return fmt.Errorf("%w: malformed entry", protocol.ErrInvalidArgument)
+	}
+	return nil
+}
+
 func (s *Service) putEntryCommandHandler(conn redcon.Conn, cmd redcon.Command) {
 	putEntryCmd, err := protocol.ParsePutEntryCommand(cmd)
 	if err != nil {
+		protocol.WriteError(conn, err)
+		return
+	}
+
+	if err = validateEncodedEntry(putEntryCmd.Value); err != nil {
 		protocol.WriteError(conn, err)
 		return
 	}
